@@ -189,7 +189,7 @@ pub open spec fn kept_of(s: Seq<BufferedSyscommand>, command: SystemCommand) -> 
 //@| ensures runner_post(*old(world), command, setup, cleanup, *final(world)),
 //@ghost | broadcast use axiom_queue_wf, axiom_counter_small;
 //@ghost | let ghost mut verif_holding: bool = false;
-//@before **world.resource_mut::<SyscommandCounter>() += 1 | proof { verif_holding = true; }
+//@after let Some(mut callback) = system_command.take() | proof { verif_holding = true; }
 //@before #2 schedule_removal_and_despawn_reactors(world) | proof { verif_holding = false; }
 //@atreturn | assert(!verif_holding);
 //@liftretain buffered_syscommands .retain | replay_buffered | VecDeque<BufferedSyscommand> | idx: usize
